@@ -69,10 +69,14 @@ fn get_delta_superficial_loss_info(
 
     let m_sfl = get_superficial_loss_ratio(idx, txs, ptf_statuses)?;
 
+    // Note that this can legitimately come out as zero, even though cap_loss is
+    // not: a loss of less than the effective-cent tolerance rounds to 0.00 (and a
+    // tiny enough one underflows in the multiplication).
     let calculated_sfl_amount: LessEqualZeroDecimal = match &m_sfl {
-        Some(sfl) => LessEqualZeroDecimal::from(c_maybe_round_to_effective_cent(
-            cap_loss.mul_pos(sfl.sfl_ratio.to_posdecimal()),
-        )),
+        Some(sfl) => c_maybe_round_to_effective_cent(
+            LessEqualZeroDecimal::try_from(*cap_loss * *sfl.sfl_ratio.to_posdecimal())
+                .unwrap(),
+        ),
         None => LessEqualZeroDecimal::zero(),
     };
 
@@ -139,7 +143,13 @@ fn get_delta_superficial_loss_info(
 
         // We don't need calculated_sfl_amount to be a LessEqualZeroDecimal anymore
         let calculated_sfl_amount =
-            NegDecimal::try_from(*calculated_sfl_amount).unwrap();
+            match NegDecimal::try_from(*calculated_sfl_amount) {
+                Ok(v) => v,
+                Err(_) => {
+                    // The superficial part of the loss rounds to nothing.
+                    return Ok(None);
+                }
+            };
         let potentially_over_applied_sfl =
             sfl.fewer_remaining_shares_than_sfl_shares;
 
